@@ -67,7 +67,7 @@ PROPS = {
         "min_nontrivial": {"quick": 2000, "thorough": 20000},
         "rule": "Direct calls of op_div/op_divmod/op_mod/op_modpow with generated argument lists (0-5 args, zero in both encodings, negatives, redundant leading 0x00/0xff, "
                 "operands up to 4000 bytes, pairs at each position, improper tails, all atom representations) under random flag sets F vs F|MALACHITE and budgets, plus typed programs "
-                "containing these operators through run_program. Result bytes, cost and error kind must agree. Non-trivial: the call got past argument parsing.",
+                "containing these operators through run_program. Result bytes, cost, error kind and the allocator's atom/pair/heap counts after the call must agree. Non-trivial: the call got past argument parsing.",
         "assumptions": COMMON_ASSUMPTIONS,
     },
     "C07": {
@@ -279,9 +279,9 @@ PROPS = {
         "budget_s": (25, 300),
         "exhaustive_key": "exhaustive_encodings",
         "min_nontrivial": {"quick": 100000, "thorough": 1000000},
-        "must_observe": ["exhaustive_encodings", "exhaustive_values", "width_boundary_values", "truncated_inputs", "overlong_encodings_checked"],
+        "must_observe": ["exhaustive_encodings", "exhaustive_values", "width_boundary_values", "truncated_inputs", "overlong_encodings_checked", "varint_short_read_comparisons"],
         "rule": "EXHAUSTIVE over every encoding whose prefix declares <=3 bytes (quick, 2.1M) / <=4 bytes (thorough, 270M), strict and lenient, with a trailing byte that must not be consumed; encoder exhaustive for |v| < 2^20 (quick) / 2^27 (thorough), every "
-                "width boundary +-2^(7k-1)+-{0,1,2}, random 56-bit values; for each value every longer encoding (lenient must return the value, strict must reject) and every truncation (must fail); 0xff and empty input. Oracle: independent varint model "
+                "width boundary +-2^(7k-1)+-{0,1,2}, random 56-bit values; for each value every longer encoding (lenient must return the value, strict must reject) and every truncation (must fail); 0xff and empty input; every enumerated encoding is also decoded through a reader that returns one byte per call (same value, verdict and consumed length). Oracle: independent varint model "
                 "(minimal length by range, two's-complement payload). distinct_nontrivial counts the enumerated encodings (distinct by construction) plus random cases.",
         "assumptions": COMMON_ASSUMPTIONS,
     },
